@@ -912,50 +912,8 @@ func (s *Server) handleRelease(req *dhcpv4.DHCPv4) {
 	}
 
 	if exists {
-		// Send RADIUS Accounting-Stop
-		if s.radiusClient != nil && lease.SessionID != "" {
-			sessionTime := uint32(time.Since(lease.SessionStart).Seconds())
-			go func() {
-				err := s.radiusClient.SendAccounting(context.Background(), &radius.AcctRequest{
-					SessionID:      lease.SessionID,
-					Username:       mac.String(),
-					MAC:            mac,
-					FramedIP:       lease.IP,
-					StatusType:     radius.AcctStatusStop,
-					InputOctets:    lease.InputBytes,
-					OutputOctets:   lease.OutputBytes,
-					SessionTime:    sessionTime,
-					TerminateCause: radius.TerminateCauseUserRequest,
-					Class:          lease.Class,
-				})
-				if err != nil {
-					s.logger.Warn("Failed to send RADIUS Accounting-Stop",
-						zap.String("session_id", lease.SessionID),
-						zap.Error(err),
-					)
-				}
-			}()
-		}
-
-		// Remove QoS policy
-		if s.qosMgr != nil {
-			if err := s.qosMgr.RemoveSubscriberQoS(lease.IP); err != nil {
-				s.logger.Warn("Failed to remove QoS policy",
-					zap.String("ip", lease.IP.String()),
-					zap.Error(err),
-				)
-			}
-		}
-
-		// Deallocate NAT
-		if s.natMgr != nil {
-			if err := s.natMgr.DeallocateNAT(lease.IP); err != nil {
-				s.logger.Warn("Failed to deallocate NAT",
-					zap.String("ip", lease.IP.String()),
-					zap.Error(err),
-				)
-			}
-		}
+		// Accounting-Stop, QoS policy, NAT port block
+		s.releaseSessionResources(mac, lease, radius.TerminateCauseUserRequest)
 
 		// Release IP back to pool
 		if pool := s.poolMgr.GetPool(lease.PoolID); pool != nil {
@@ -1024,6 +982,9 @@ func (s *Server) handleDecline(req *dhcpv4.DHCPv4) {
 			s.leasesByCircuitIDMu.Unlock()
 		}
 		s.removeFromFastPath(mac, lease)
+
+		// The session is over: Accounting-Stop, QoS policy, NAT port block
+		s.releaseSessionResources(mac, lease, radius.TerminateCauseUserError)
 	}
 }
 
@@ -1046,6 +1007,62 @@ func (s *Server) removeFromFastPath(mac net.HardwareAddr, lease *Lease) {
 		s.loader.RemoveCircuitIDMapping(lease.CircuitID)
 		if s.loader.HasCircuitIDSubscriberSupport() {
 			s.loader.RemoveCircuitIDSubscriber(lease.CircuitID)
+		}
+	}
+}
+
+// releaseSessionResources gives back what handleRequest set up for a new
+// session and that does not live in the lease table, the pool or the fast
+// path: the RADIUS accounting session (Accounting-Stop), the QoS policy and
+// the NAT port block. Every path that ends a lease calls it exactly once,
+// after it has removed the lease from the lease table.
+func (s *Server) releaseSessionResources(mac net.HardwareAddr, lease *Lease, terminateCause uint32) {
+	if lease == nil {
+		return
+	}
+
+	// Send RADIUS Accounting-Stop
+	if s.radiusClient != nil && lease.SessionID != "" {
+		sessionTime := uint32(time.Since(lease.SessionStart).Seconds())
+		go func() {
+			err := s.radiusClient.SendAccounting(context.Background(), &radius.AcctRequest{
+				SessionID:      lease.SessionID,
+				Username:       mac.String(),
+				MAC:            mac,
+				FramedIP:       lease.IP,
+				StatusType:     radius.AcctStatusStop,
+				InputOctets:    lease.InputBytes,
+				OutputOctets:   lease.OutputBytes,
+				SessionTime:    sessionTime,
+				TerminateCause: terminateCause,
+				Class:          lease.Class,
+			})
+			if err != nil {
+				s.logger.Warn("Failed to send RADIUS Accounting-Stop",
+					zap.String("session_id", lease.SessionID),
+					zap.Error(err),
+				)
+			}
+		}()
+	}
+
+	// Remove QoS policy
+	if s.qosMgr != nil {
+		if err := s.qosMgr.RemoveSubscriberQoS(lease.IP); err != nil {
+			s.logger.Warn("Failed to remove QoS policy",
+				zap.String("ip", lease.IP.String()),
+				zap.Error(err),
+			)
+		}
+	}
+
+	// Deallocate NAT
+	if s.natMgr != nil {
+		if err := s.natMgr.DeallocateNAT(lease.IP); err != nil {
+			s.logger.Warn("Failed to deallocate NAT",
+				zap.String("ip", lease.IP.String()),
+				zap.Error(err),
+			)
 		}
 	}
 }
@@ -1233,6 +1250,9 @@ func (s *Server) cleanupExpiredLeases() {
 				s.removeFromFastPath(hwAddr, lease)
 			}
 		}
+
+		// The session is over: Accounting-Stop, QoS policy, NAT port block
+		s.releaseSessionResources(lease.MAC, lease, radius.TerminateCauseSessionTimeout)
 	}
 	s.leasesMu.Unlock()
 
